@@ -144,7 +144,110 @@ def r10_5(F, R):
                    lambda fn: fn.crate in ("tfm.lib", "tftopl.bin", "pltotf.bin") and "arbitrary::Arbitrary" not in fn.name, 10, aud)
 
 
+def r10_7(F, R):
+    from ..cfg import Defs, reachable
+    from ..dataflow import op_place
+    from ..facts import AnchorError, callee_name
+    R.rule("R10.7", "the declared file length is checked in whole bytes: RawFile::deserialize compares the number of bytes it was given with 4*lf (or "
+                    "the number of *complete* words, len / 4, with lf) and the table slicing (finish_deserialization) is not reachable when fewer "
+                    "bytes are present — a check that rounds the byte count *up* to words accepts a file cut inside its last word, and the "
+                    "slicing then runs past the end")
+    fns = [f for f in F.fns.values() if strip_generics(f.name) == "tfm::deserialize::RawFile::deserialize"]
+    if len(fns) != 1:
+        raise AnchorError("RawFile::deserialize: %d matches" % len(fns))
+    fn = fns[0]
+    D = Defs(fn)
+    fin = [bi for bi, t in fn.calls() if strip_generics(callee_name(t) or "").endswith("finish_deserialization")]
+    if not fin:
+        raise AnchorError("R10.7: finish_deserialization is not called from RawFile::deserialize")
+
+    def shape(o, depth=6):
+        """'len' | 'len/4' | 'x*4' | 'x' for an operand, through copies, references and checked-arithmetic pairs"""
+        p = op_place(o)
+        for _ in range(depth):
+            if p is None:
+                return "const"
+            d = D.single(p["l"])
+            if d is None:
+                return "x"
+            if d[0] == "call":
+                n = strip_generics(callee_name(d[3]) or "").split("::")[-1]
+                return "len" if n == "len" else "call:" + n
+            rv = d[3].get("rv", {})
+            k = rv.get("k")
+            if k == "ref":
+                p = {"l": rv["pl"]["l"], "p": []}
+            elif k in ("use", "cast"):
+                p = op_place(rv["op"])
+            elif k == "bin" and rv["op"] in ("Mul", "MulWithOverflow") and (rv["b"].get("c") or {}).get("int") == 4:
+                return "x*4"
+            elif k == "bin" and rv["op"] in ("Div",) and (rv["b"].get("c") or {}).get("int") == 4 and shape(rv["a"], depth - 1) == "len":
+                return "len/4"
+            elif k == "bin" and rv["op"] in ("Shr",) and (rv["b"].get("c") or {}).get("int") == 2 and shape(rv["a"], depth - 1) == "len":
+                return "len/4"
+            else:
+                return "x"
+        return "x"
+    GOOD = {("len", "x*4"), ("len/4", "x")}
+    less_targets = []     # blocks entered when fewer bytes than declared are present
+    found = 0
+    for bi, b in enumerate(fn.blocks):
+        t = b["t"]
+        if t["k"] == "call" and strip_generics(callee_name(t) or "").split("::")[-1] == "cmp" and len(t["args"]) == 2 and t.get("t") is not None:
+            sa, sb = shape(t["args"][0]), shape(t["args"][1])
+            if (sa, sb) in GOOD or (sb, sa) in GOOD:
+                found += 1
+                res = t["dest"]["l"]
+                less_is = "Less" if (sa, sb) in GOOD else "Greater"
+                for b2 in fn.blocks:
+                    t2 = b2["t"]
+                    if t2["k"] != "switch":
+                        continue
+                    p = op_place(t2["op"])
+                    for st in b2["s"]:
+                        if p is not None and st["k"] == "=" and st["lhs"]["l"] == p["l"] and st["rv"]["k"] == "discr" and st["rv"]["pl"]["l"] == res:
+                            vs = F.enum_variants(st["rv"]["ty"]) or []
+                            m = dict((v, bb) for v, bb in t2["ts"])
+                            for name, dv, vi in vs:
+                                if name == less_is:
+                                    less_targets.append(m.get(dv, t2["else"]))
+        for st in b["s"]:
+            if st["k"] == "=" and st["rv"]["k"] == "bin" and st["rv"]["op"] in ("Lt", "Le", "Gt", "Ge") and t["k"] == "switch":
+                p = op_place(t["op"])
+                if p is None or p["l"] != st["lhs"]["l"]:
+                    continue
+                sa, sb = shape(st["rv"]["a"]), shape(st["rv"]["b"])
+                op = st["rv"]["op"]
+                if (sb, sa) in GOOD:
+                    sa, sb = sb, sa
+                    op = {"Lt": "Gt", "Le": "Ge", "Gt": "Lt", "Ge": "Le"}[op]
+                if (sa, sb) not in GOOD:
+                    continue
+                found += 1
+                m = dict((v, bb) for v, bb in t["ts"])
+                true_t = t["else"] if 0 in m else m.get(1)
+                false_t = m.get(0, t["else"])
+                # bytes < declared  <=>  `len < x*4` true, or `len >= x*4` false
+                if op == "Lt":
+                    less_targets.append(true_t)
+                elif op == "Ge":
+                    less_targets.append(false_t)
+                # `<=` / `>` do not separate "fewer" from "exactly": not a witness
+    loc = "%s:%d" % (fn.file, fn.line)
+    if not found or not less_targets:
+        R.violation("R10.7", "RawFile::deserialize/length-check", "RawFile::deserialize has no comparison of the byte count (`b.len()`) with 4*lf, or of the "
+                    "complete words (`b.len() / 4`) with lf, that separates a short file: a file cut inside its last word reaches the table slicing", loc)
+        return
+    bad = [lt for lt in less_targets if lt is not None and any(f in reachable(fn, lt) for f in fin)]
+    if bad:
+        R.violation("R10.7", "RawFile::deserialize/length-check", "the table slicing (finish_deserialization) is reachable from the `fewer bytes than declared` "
+                    "outcome of the length check (%s)" % fn.loc(fn.blocks[bad[0]]["t"]), loc)
+    else:
+        R.ok("R10.7", "RawFile::deserialize/length-check", "short files leave before the slicing (%d comparison%s in byte units)" % (found, "" if found == 1 else "s"), loc, how="path")
+
+
 def run(F, R, tier):
+    r10_7(F, R)
     R.rule("R10.1", "explicit panics and the unwrap family in every function reachable from tfm_to_pl / pl_to_tfm are discharged or findings")
     R.rule("R10.2", "every assert terminator (overflow, division, bounds) and every curated panicking std call (indexing, slicing, split_at, rotate, "
                     "to_digit, RefCell, ...) reachable from the entry points — the tfm crate, the two command line tools and the common crate — is "
